@@ -1,0 +1,121 @@
+//go:build verif
+
+package frugal
+
+// Hooks for the external verification harness (/verif). Compiled only with
+// -tags verif. Nothing here changes behaviour unless a yield function is
+// installed; the wrappers merely export unexported entry points so they can be
+// driven synchronously (shrinkable fuzzing) and observed.
+
+import (
+	"io"
+	"sync/atomic"
+
+	"github.com/nats-io/nats.go"
+)
+
+var verifYieldFn atomic.Value // of func(string, uint64)
+
+// VerifSetYield installs (or, with nil, removes) the schedule-point callback.
+func VerifSetYield(fn func(point string, opid uint64)) {
+	if fn == nil {
+		fn = func(string, uint64) {}
+	}
+	verifYieldFn.Store(fn)
+}
+
+func verifYield(point string, opid uint64) {
+	if fn, ok := verifYieldFn.Load().(func(string, uint64)); ok && fn != nil {
+		fn(point, opid)
+	}
+}
+
+func verifOpID(ctx FContext) uint64 {
+	id, _ := getOpID(ctx)
+	return id
+}
+
+// VerifReadHeader exposes readHeader.
+func VerifReadHeader(r io.Reader) (map[string]string, error) { return readHeader(r) }
+
+// VerifGetHeadersFromFrame exposes getHeadersFromFrame.
+func VerifGetHeadersFromFrame(frame []byte) (map[string]string, error) {
+	return getHeadersFromFrame(frame)
+}
+
+// VerifUnmarshalFrame exposes unmarshalFrame.
+func VerifUnmarshalFrame(frame []byte) (headers map[string]string, payload []byte, err error) {
+	c, err := unmarshalFrame(frame)
+	if err != nil || c == nil {
+		return nil, nil, err
+	}
+	return c.headers, c.payload, nil
+}
+
+// VerifAddHeadersToFrame exposes addHeadersToFrame.
+func VerifAddHeadersToFrame(frame []byte, headers map[string]string) ([]byte, error) {
+	return addHeadersToFrame(frame, headers)
+}
+
+// VerifMarshalHeaders exposes the write marshaler.
+func VerifMarshalHeaders(headers map[string]string) []byte {
+	return writeMarshaler.marshalHeaders(headers)
+}
+
+func verifRegistryOf(tr FTransport) fRegistry {
+	switch t := tr.(type) {
+	case *fAdapterTransport:
+		return t.registry
+	case *fNatsTransport:
+		return t.registry
+	case *fHTTPTransport:
+		return t.registry
+	}
+	return nil
+}
+
+// VerifRegistryLen reports the number of registered in-flight op ids (-1 if
+// the transport type has no registry).
+func VerifRegistryLen(tr FTransport) int {
+	r, ok := verifRegistryOf(tr).(*fRegistryImpl)
+	if !ok {
+		return -1
+	}
+	r.mu.RLock()
+	defer r.mu.RUnlock()
+	return len(r.channels)
+}
+
+// VerifExecuteFrame feeds one inbound message to the transport's response
+// path, synchronously. For the adapter transport the frame is what the read
+// loop hands to the registry (no 4-byte size prefix); for the NATS and HTTP
+// transports it is a complete message (with the size prefix).
+func VerifExecuteFrame(tr FTransport, frame []byte) error {
+	switch t := tr.(type) {
+	case *fAdapterTransport:
+		return t.registry.Execute(frame)
+	case *fNatsTransport:
+		return t.fBaseTransport.ExecuteFrame(frame)
+	case *fHTTPTransport:
+		return t.fBaseTransport.ExecuteFrame(frame)
+	}
+	return nil
+}
+
+// VerifNatsClientHandle invokes the NATS client transport's message handler.
+func VerifNatsClientHandle(tr FTransport, msg *nats.Msg) {
+	if t, ok := tr.(*fNatsTransport); ok {
+		t.handler(msg)
+	}
+}
+
+// VerifNatsServerProcess runs one request message through the NATS server's
+// worker path (processFrame), synchronously.
+func VerifNatsServerProcess(srv FServer, data []byte, reply string) error {
+	s, ok := srv.(*fNatsServer)
+	if !ok {
+		return nil
+	}
+	return s.processFrame(&frameWrapper{frameBytes: data, reply: reply,
+		ephemeralProperties: make(map[interface{}]interface{})})
+}
